@@ -30,7 +30,7 @@ def main():
     patch = os.path.abspath(a[0])
     props = a[1:]
     name = os.path.splitext(os.path.basename(patch))[0][:40]
-    base = "/tmp/bita-mut"
+    base = os.environ.get("MUTANT_BASE", "/tmp/bita-mut")
     os.makedirs(base, exist_ok=True)
     # one mutant at a time: they share the private simulator copy
     import fcntl
